@@ -41,18 +41,29 @@ func (p *QueryTemplateParams[Opts]) UnmarshalJSON(b []byte) error {
 	var x struct {
 		PIT      *time.Time `json:"endTime"`
 		OOT      *time.Time `json:"startTime"`
-		Expand   []string   `json:"expand,omitempty"`
+		Expand   *[]string  `json:"expand,omitempty"`
 		Sort     string     `json:"sort"`
-		PageSize uint       `json:"pageSize"`
+		PageSize *uint      `json:"pageSize"`
 	}
 	err := json.Unmarshal(b, &x)
 	if err != nil {
 		return err
 	}
-	p.PIT = x.PIT
-	p.OOT = x.OOT
-	p.Expand = x.Expand
-	p.PageSize = x.PageSize
+	// only the fields present in the document override the current values:
+	// Overwrite applies the template params, then the request params, on top of
+	// the defaults, and an absent field must not reset what is already there.
+	if x.PIT != nil {
+		p.PIT = x.PIT
+	}
+	if x.OOT != nil {
+		p.OOT = x.OOT
+	}
+	if x.Expand != nil {
+		p.Expand = *x.Expand
+	}
+	if x.PageSize != nil {
+		p.PageSize = *x.PageSize
+	}
 
 	if x.Sort != "" {
 		parts := strings.SplitN(x.Sort, ":", 2)
